@@ -315,6 +315,37 @@ log_rt!(o12_2_log_roundtrip_len0, 0);
 log_rt!(o12_2_log_roundtrip_len1, 1);
 log_rt!(o12_2_log_roundtrip_len2, 2);
 
+// ------------------------------------------------------------------ O12.6 one log fragment: (type, payload) survive serialise + parse
+macro_rules! frag_rt {
+    ($name:ident, $n:expr) => {
+        #[kani::proof]
+        #[kani::unwind(8)]
+        #[kani::stub(alloc::fmt::format, stub_format)]
+        fn $name() {
+            let ty: u8 = kani::any();
+            kani::assume(ty <= 3);
+            let data: [u8; $n] = kani::any();
+            match v::block_record_roundtrip(ty, &data) {
+                Some((t2, d2)) => {
+                    assert!(t2 == ty, "a log fragment is parsed with another type than it was written with");
+                    assert!(d2.len() == $n, "a log fragment is parsed with another payload length than it was written with");
+                    let mut i = 0;
+                    while i < $n {
+                        assert!(d2[i] == data[i], "a log fragment is parsed with another payload than it was written with");
+                        i += 1;
+                    }
+                    core::mem::forget(d2);
+                }
+                None => assert!(false, "a freshly serialised log fragment does not parse"),
+            }
+            kani::cover!(true, "end reached");
+        }
+    };
+}
+frag_rt!(o12_6_fragment_roundtrip_len0, 0);
+frag_rt!(o12_6_fragment_roundtrip_len1, 1);
+frag_rt!(o12_6_fragment_roundtrip_len2, 2);
+
 macro_rules! log_corrupt {
     ($name:ident, $k:expr) => {
         #[kani::proof]
